@@ -203,7 +203,7 @@ func main() {
 	}
 	fams := []fam{
 		{"cflow", Case{Family: "cflow", Budget: r.Pick(3, 4), Depth: 2}},
-		{"cflow-rich", Case{Family: "cflow", Budget: r.Pick(3, 3), Depth: 2, Rich: true}},
+		{"cflow-rich", Case{Family: "cflow", Budget: r.Pick(2, 3), Depth: 2, Rich: true}},
 		{"func", Case{Family: "func", Budget: r.Pick(2, 3)}},
 	}
 	for _, f := range fams {
